@@ -564,12 +564,18 @@ func ResolveSpecSource(ctx context.Context, specSource interface{}) (*crew.SpecS
 			log.Println("ResolveSpecSource: reading file", filename)
 			body, err = ioutil.ReadFile(filename)
 		} else {
-			resp, err := http.Get(src.URL)
-			if err != nil {
+			var resp *http.Response
+			if resp, err = http.Get(src.URL); err != nil {
 				return nil, nil, err
 			}
 			body, err = ioutil.ReadAll(resp.Body)
 			resp.Body.Close()
+		}
+		if err != nil {
+			return nil, nil, err
+		}
+		if len(body) == 0 {
+			return nil, nil, fmt.Errorf("empty spec at %s", src.URL)
 		}
 
 		var spec core.Spec
